@@ -117,6 +117,11 @@ def check_pair(ctx, kind, a, ma, da, b, mb, db, arith=True, tol=False):
     # mutual consistency of the four order operators, always
     if le != (not gt) or ge != (not lt) or (lt and gt):
         ctx.violation("operator_algebra", sig, case, "<= is not >, >= is not <", {"lt": lt, "le": le, "gt": gt, "ge": ge})
+    # exact durations are equal and ordered by one quantity, their total length: == and < / > must not contradict each
+    # other, whatever the float noise (always judged)
+    if ma[:2] == (0, 0) and mb[:2] == (0, 0) and ((eq and (lt or gt)) or (not eq and not lt and not gt)):
+        ctx.violation("order_contradicts_equality", sig, case, "exactly one of a < b, a == b, a > b",
+                      {"eq": eq, "lt": lt, "gt": gt})
     ctx.outcome("eq", eq)
 
 
@@ -216,6 +221,28 @@ def run_unit(unit, ctx):
             except Exception as ex:
                 ctx.violation("total", {"exc": type(ex).__name__}, {"kind": "standardize", "mode": kind, "a": dd},
                               "Duration(standardize=True) works", repr(ex))
+        # one total length spelled with and without a carry into the next unit, every tenth and some hundredths
+        ctx.transitions += 0
+        for k in list(range(1, 10)) + [25, 33, 75, 99]:
+            x = k / 10.0 if k < 10 else k / 100.0
+            for da, db in (({"days": 1, "seconds": x}, {"seconds": 86400 + x}), ({"hours": 1, "seconds": x}, {"seconds": 3600 + x}),
+                           ({"days": 1, "hours": x}, {"hours": 24 + x}), ({"minutes": 1, "seconds": x}, {"seconds": 60 + x}),
+                           ({"days": 1, "hours": 4 + x}, {"days": 1, "minutes": 240, "seconds": x * 3600}),
+                           ({"days": 1}, {"hours": 4 + x, "minutes": 1200 - 60 * x})):
+                try:
+                    a, b = impl.build_duration(da), impl.build_duration(db)
+                    ctx.state_count += 1
+                    check_pair(ctx, kind, a, model(da), da, b, model(db), db, arith=False, tol=True)
+                    check_pair(ctx, kind, b, model(db), db, a, model(da), da, arith=False, tol=True)
+                    derived = impl.build_duration({"days": 1, "hours": 4 + x}) - impl.build_duration({"minutes": 240 + 60 * x})
+                    for dd, obj in ((da, a), (db, b), ({"days": 1, "hours": 4 + x, "minus_minutes": 240 + 60 * x}, derived)):
+                        dys, secs = obj.get_days_and_seconds()
+                        if not (0 <= secs < 86400):
+                            ctx.violation("get_days_and_seconds", {"week_form": False, "decimal": True},
+                                          {"kind": "decimal_unit", "mode": kind, "a": dd}, "0 <= seconds < 86400", [dys, secs])
+                except Exception as ex:
+                    ctx.violation("total", {"exc": type(ex).__name__}, {"kind": "pair", "mode": kind, "a": da, "b": db},
+                                  "works", repr(ex))
     elif u == "triples":
         sub = descs[:: max(1, len(descs) // 56)][:56] + [{"weeks": 1}, {"weeks": -2}, {}]
         if ctx.tier == "quick":
@@ -237,7 +264,7 @@ def run_unit(unit, ctx):
 def replay_case(case, ctx):
     kind = case["mode"]
     impl.set_mode(A.MODE_OF[kind])
-    if case["kind"] == "standardize":
+    if case["kind"] in ("standardize", "decimal_unit"):
         run_unit(("decimal", kind), ctx)
     elif case["kind"] == "unary":
         check_unary(ctx, kind, impl.build_duration(case["a"]), model(case["a"]), case["a"])
